@@ -147,6 +147,9 @@ def base_isa(consts):
                     'mem': {'list': {'m': {'type': 'indirect_numeric', 'argument': arg(16, True)}}}}},
                 'instructions': ['ldw rb, 7']},
                {'operands': {'count': 1, 'operand_sets': {'list': ['imm16']}}, 'instructions': ['ldw ra, @ARG(0)']}],
+        # placeholders are replaced by the operand's *text*: precedence is that of the resulting text
+        'dbl': [{'operands': {'count': 2, 'operand_sets': {'list': ['regs', 'imm8']}},
+                 'instructions': ['ldi @REG(0), @ARG(1)*2', 'ldi @REG(0), 10-@ARG(1)', 'ldw @REG(0), @OP(1)*3']}],
         'badarg': [{'operands': {'count': 1, 'operand_sets': {'list': ['regs']}}, 'instructions': ['ldi ra, @ARG(0)']}],
         'badreg': [{'operands': {'count': 1, 'operand_sets': {'list': ['imm8']}}, 'instructions': ['ldi @REG(0), 1']}],
         'badidx': [{'operands': {'count': 1, 'operand_sets': {'list': ['imm8']}}, 'instructions': ['ldi ra, @ARG(1)']}],
@@ -176,6 +179,9 @@ CATALOGUE = [
     ('variant-specific-register', 'sp ra', 'ldw rb, 7', {}, ['ok/ok']),
     ('variant-specific-indirect', 'sp [v1]', 'ldw rb, 7', {'v1': vrange(16)}, ['ok/ok']),
     ('variant-after-specific', 'sp v1', 'ldw ra, v1', {'v1': vrange(16)}, ['ok/ok', 'rejected/rejected']),
+    ('argument-text-next-to-tighter-operator', 'dbl ra, v1+1', 'ldi ra, v1+1*2\nldi ra, 10-v1+1\nldw ra, v1+1*3', {'v1': (-200, 300)},
+     ['ok/ok', 'rejected/rejected']),
+    ('argument-text-with-shift', 'dbl rb, v1 & 6', 'ldi rb, v1 & 6*2\nldi rb, 10-v1 & 6\nldw rb, v1 & 6*3', {'v1': (0, 255)}, ['ok/ok']),
     ('two-invocations', 'a1: jj a1\nnn\na2: jj a1', 'a1: nop\njr a1\nn4\nnop\na2: nop\njr a1', {}, ['ok/ok']),
     ('label-between-macros', 'nn\nmid: jj mid\nldi2 ra, LSB(mid)', 'n4\nnop\nmid: nop\njr mid\nldi ra, LSB(mid)\nldi ra, LSB(mid) + 1',
      {}, ['ok/ok', 'rejected/rejected']),
@@ -237,7 +243,7 @@ def random_macro(rnd):
             base = f'@ARG({i})'
             if ops[i]['kind'] == 'imm' and rnd.random() < 0.4:
                 base = f'@OP({i})'
-            return rnd.choice([base, base, f'{base} + 1', f'LSB({base})' if small else base])
+            return rnd.choice([base, base, f'{base} + 1', f'LSB({base})' if small else base, f'{base}*2', f'9-{base}'])
         return rnd.choice(['5', 'post', '$20'])
 
     def mem_ph():
